@@ -204,6 +204,7 @@ def model_fold(mods):
         for n in mod["nodes"]:
             n.pop("m", None)
             n["_p"] = byname.get(n["parent"])
+            n["_len"] = isl
         mod["_base"] = ("ok", None if isl else rng([(lo, hi)], fd))
         todo.extend((mod, n) for n in mod["nodes"])
     evals = 0
@@ -226,6 +227,8 @@ def model_fold(mods):
             for (n, _), o in zip(batch, outs):
                 t = o.split()
                 n["m"] = ("ok", t[1] if len(t) > 1 else "-") if t[0] == "ok" else ("err",) if t[0] == "err" else ("skip",)
+                if n["m"][0] == "ok" and n["_len"] and any(x.endswith(":1") for part in n["m"][1].split(",") for x in part.split("~")):
+                    n["m"] = ("skip",)   # "-0" as a length bound: Type.resolve's own "negative length" test, not part of the model
         elif len(rest) == len(todo):
             for _, n in rest:      # parent is not a node of the module (never generated)
                 n["m"] = ("skip",)
@@ -234,6 +237,7 @@ def model_fold(mods):
     for mod in mods:
         for n in mod["nodes"]:
             n.pop("_p", None)
+            n.pop("_len", None)
         mod.pop("_base", None)
     return evals
 
@@ -295,7 +299,7 @@ def compare_mod(mod, goline):
     for ri, r in enumerate(j["runs"]):
         if mod["reject"] is not None:
             if not r["errors"]:
-                return "run %d: restriction on '%s' admits values outside its parent's set (model: error) but Process reported no error" % (ri, mod["reject"])
+                return "run %d: restriction on '%s' is an error in the model (malformed, bounds out of order, or not within its parent's set) but Process reported no error" % (ri, mod["reject"])
             continue
         if r["errors"]:
             return "run %d: model accepts every restriction, Process reported %s" % (ri, r["errors"][:2])
@@ -567,7 +571,9 @@ def run_modules(res, tier, seed):
                      "in the wider set; several leaves/typedefs restrict DIFFERENT parents with byte-identical texts (numerals and min/max), statement "
                      "order varied; each module is parsed once and Process is run twice in one Modules value; model = Range.parseChildRanges folded "
                      "along each chain from the builtin base; Process error <=> the model rejects the (single) offending restriction; otherwise every "
-                     "leaf's resolved part list equals the model's by value")
+                     "leaf's resolved part list equals the model's by value; bounds with malformed sign combinations (every string over +,- of length 0..3, "
+                     "signs after/inside the digits, blanks after the sign) must be rejected unless a single leading sign; a length restriction "
+                     "whose result has a -0 bound is excluded (Type.resolve's separate 'negative length' test is not modelled)")
 
 
 def run(res, tier, seed, proof):
@@ -577,7 +583,7 @@ def run(res, tier, seed, proof):
     for g in go:
         outs[g.split()[0]] = outs.get(g.split()[0], 0) + 1
     multi = sum(1 for g in go if g.startswith("ok") and "," in g)
-    cov = dict(evaluations=len(cases), distinct_nontrivial=len({c for c in cases if len(c.split()[2]) > 6}),
+    cov = dict(evaluations=len(cases), distinct_nontrivial=len({c for c in cases if c.startswith('ranges') and len(c.split()[2]) > 6}),
                rule="parseChildRanges(parent, text, decimal, fd) via the verif hook: exhaustive 1-2 part restrictions over 18 tokens on uint8 "
                     "and on a two-part parent; bounds within +-1 of every parent bound and of 2^63/2^64 on the 8 built-in integer ranges "
                     "and 6 restricted parents; accepted-by-construction partitions and one-off perturbations; decimal64 at fd {1,2,17,18} "
